@@ -138,6 +138,71 @@ def monitor_object(ctx, c):
         ctx.violation("from_string(to_string(c)) differs from c", {"cap": U.describe(c)}, "parse-print-" + "".join(U.tag_of(c)))
 
 
+WORKER = _os.path.join(_os.path.dirname(_os.path.abspath(__file__)), "_uri_worker.py")
+
+
+def run_worker(orders, reload):
+    import json
+    import subprocess
+    import sys
+    from common import InfraError
+    p = subprocess.run([sys.executable, WORKER], input=json.dumps({"reload": reload, "orders": [[hx(s) for s in o] for o in orders]}),
+                       stdout=subprocess.PIPE, stderr=subprocess.PIPE, text=True, timeout=600)
+    if p.returncode != 0:
+        raise InfraError("uri worker failed: " + p.stderr[-400:])
+    return json.loads(p.stdout)
+
+
+def run_orders(ctx, replay_order=None):
+    """Parse every kind in many different ORDERS with cold class-level state (a parser must not depend on what was
+    parsed before): every ordered pair of kinds, random permutations of all 18 (module reloaded before each order),
+    and a few orders in really fresh processes.  Each string is the to_string() of a cap built with the real
+    constructors, so it must parse back to the same kind and print itself."""
+    rng = ctx.rng
+    caps = {}
+    for (tag, is_dir) in U.ALL_KINDS:
+        c = U.rand_cap(rng, tag, is_dir)
+        caps[("D" if is_dir else "F") + tag] = c.to_string()
+    kinds = sorted(caps)
+    kind_of = {s: k for k, s in caps.items()}
+    if replay_order is not None:
+        batches = [("fresh", [replay_order])]
+        for s in replay_order:
+            kind_of.setdefault(s, "?")
+    else:
+        pairs = [[caps[a], caps[b]] for a in kinds for b in kinds if a != b]
+        perms = []
+        for _ in range(ctx.budget(20, 400)):
+            o = [caps[k] for k in kinds]
+            rng.shuffle(o)
+            perms.append(o)
+        batches = [("reload", pairs + perms)]
+        firsts = kinds[:]
+        rng.shuffle(firsts)
+        for a in firsts[:ctx.budget(3, 18)]:
+            rest = [k for k in kinds if k != a]
+            rng.shuffle(rest)
+            batches.append(("fresh", [[caps[a]] + [caps[k] for k in rest]]))
+    strings = sorted(kind_of)
+    model = ctx.model(["fs 0 " + hx(s) for s in strings])
+    model_of = dict(zip(strings, model)) if model is not None else None
+    for mode, orders in batches:
+        results = run_worker(orders, reload=(mode == "reload"))
+        for order, res in zip(orders, results):
+            for i, (s, out) in enumerate(zip(order, res)):
+                prev = kind_of[order[i - 1]] if i else "start"
+                case = {"order": [hx(x) for x in order], "index": i, "mode": mode, "kinds": [kind_of[x] for x in order]}
+                ctx.case(("order", mode, tuple(kind_of[x] for x in order[:i + 1])))
+                ctx.count("order:" + mode)
+                want_prefix = ("D " if kind_of[s][0] == "D" else "F ") + kind_of[s][1:] + " "
+                if kind_of[s] != "?" and not (out.startswith(want_prefix) and out.endswith("| " + hx(s))):
+                    what = "unknown" if out.startswith("U ") else "other"
+                    ctx.violation("to_string() of a %s cap parsed back as %r when first parsed after %s" % (kind_of[s], out[:60], prev),
+                                  case, "valid-cap-parsed-as-%s:%s:after:%s" % (what, kind_of[s], prev))
+                if model_of is not None and model_of[s] != out:
+                    ctx.disagree("uri.from_string in order (%s)" % mode, case, out, model_of[s])
+
+
 def run(ctx):
     from allmydata import uri
     from allmydata.util import base32
@@ -148,6 +213,11 @@ def run(ctx):
 
     strings = []                        # (label, bytes)
     objs = []
+    if ctx.replay and "order" in (ctx.replay.get("case") or {}):
+        from common import unhx
+        return run_orders(ctx, [unhx(x) for x in ctx.replay["case"]["order"]])
+    if not ctx.replay:
+        run_orders(ctx)
     if ctx.replay:
         case = ctx.replay.get("case") or {}
         if "s" in case:
